@@ -62,6 +62,7 @@ func main() {
 	known := fs.String("known", "", "comma separated active known-finding ids")
 	out := fs.String("out", "", "result JSON file")
 	solverPath := fs.String("solver", "z3-new", "solver binary")
+	cvc5Path := fs.String("cvc5", "cvc5", "cvc5 binary raced on floating-point goals (empty = off)")
 	qto := fs.Int("query-timeout", 60000, "verdict query timeout ms")
 	fto := fs.Int("feas-timeout", 10000, "feasibility query timeout ms")
 	steps := fs.Int("steps", 4000000, "SSA instruction budget per path")
@@ -154,7 +155,7 @@ func main() {
 	h.CountPfx = strings.Split(*countPfx, ",")
 
 	opts := interp.Options{
-		Workers: *workers, SolverPath: *solverPath, QueryTimeoutMs: *qto, FeasTimeoutMs: *fto,
+		Workers: *workers, SolverPath: *solverPath, CVC5Path: *cvc5Path, QueryTimeoutMs: *qto, FeasTimeoutMs: *fto,
 		StepBudget: *steps, DepthBudget: *depth, MaxPaths: *maxPaths, Tier: *tier,
 		ActiveKnown: map[string]bool{}, Transcript: *transcript, ForkMaps: *forkMaps, WitnessPaths: *witnesses,
 	}
